@@ -1,6 +1,7 @@
 """C07 Component builds are reported at the first parent build that ships them."""
 import json
 import logging
+import os
 import re
 
 import vf
@@ -35,14 +36,21 @@ TIERS = {
 }
 FLOORS = {"quick": {"distinct_nontrivial": 1200, "included_at_entries_observed": 3000,
                     "component_build_x_parent_branch_decisions": 5000, "dependency_graphs": 1000,
-                    "cyclic_graphs_rejected": 300, "parent_builds_reported_without_own_commit": 100},
+                    "cyclic_graphs_rejected": 300, "parent_builds_reported_without_own_commit": 100,
+                    "components_with_an_unreadable_first_version_location": 100,
+                    "scenarios_with_refs_read_from_git_directories": 100},
           "thorough": {"distinct_nontrivial": 25000, "included_at_entries_observed": 100000,
                        "component_build_x_parent_branch_decisions": 200000, "dependency_graphs": 40000,
-                       "cyclic_graphs_rejected": 10000, "parent_builds_reported_without_own_commit": 4000}}
+                       "cyclic_graphs_rejected": 10000, "parent_builds_reported_without_own_commit": 4000,
+                       "components_with_an_unreadable_first_version_location": 3000,
+                       "scenarios_with_refs_read_from_git_directories": 3000}}
 LEVEL_TEXT = ("Runtime exploration with a graph oracle over generated two-repository histories and generated "
               "dependency graphs; every included_at entry produced by the real code is re-derived from pins and "
               "reachability by the harness.")
-LEVEL_NOTE = "histories <= 13 component / 12 parent commits, one component per parent; default tag-based build detection"
+LEVEL_NOTE = ("histories <= 13 component / 12 parent commits, one or two components per parent; tag-based build detection, "
+              "or build numbers saved in a version file (second configured location when the first is unreadable); in 15% of "
+              "the single-report scenarios the refs are read by the production reader from .git directories "
+              "(packed-refs and loose files, annotated tags in both)")
 TECHNIQUE = "runtime monitoring: pin/reachability oracle over generated component+parent histories; topological-order oracle"
 
 TEXT = "BUG-7"
@@ -68,11 +76,15 @@ def gen_comp(rng, name="comp", step=60):
     if master_mode:
         major, minor = 10, 20
     rel = "%d_%d" % (major, minor)
+    # an older location of the version is still configured first; the file left there is a note, not a number
+    old_note = rng.choice(["see VERSION", "moved", "1.x"]) if (master_mode or saved_mode) and rng.random() < 0.3 else None
     for cid in range(1, m + 1):
         msg = "BUG-7 c%d" % cid if rng.random() < 0.5 else "misc"
         if master_mode and cid > 1 and rng.random() < 0.3:
             minor += 1
         files = {"VERSION": "%d.%d" % (major, minor)} if master_mode else {}
+        note = {"version.txt": old_note} if old_note and (cid > 1 or rng.random() < 0.7) else {}
+        files.update(note)
         if saved_mode:
             # (the first and the last commit always change the number: a head that only repeats the number of an
             # earlier build is reported under that number - what that means is left open, see DESIGN 6.2)
@@ -80,7 +92,7 @@ def gen_comp(rng, name="comp", step=60):
                 bn += 1
                 versions.append((cid, (major, minor, bn)))
             commits[cid] = mg.Commit(name, cid, [prev] if prev else [], msg, base + cid * step,
-                                     {"VERSION": "%d.%d.%d" % (major, minor, bn)})
+                                     dict(note, VERSION="%d.%d.%d" % (major, minor, bn)))
             prev = commits[cid]
             continue
         commits[cid] = mg.Commit(name, cid, [prev] if prev else [], msg, base + cid * step, files)
@@ -101,7 +113,8 @@ def gen_comp(rng, name="comp", step=60):
         for cid in range(m + 1, m + k + 1):
             msg = "BUG-7 c%d" % cid if rng.random() < 0.5 else "misc"
             commits[cid] = mg.Commit(name, cid, [prev], msg, base + (cid + later) * step,
-                                     {"VERSION": "10.30"} if master_mode else {})
+                                     dict({"version.txt": old_note} if old_note else {}, VERSION="10.30")
+                                     if master_mode else {})
             prev = commits[cid]
             if rng.random() < 0.6:
                 bn += 1
@@ -187,10 +200,38 @@ def grow(comp, par, versions, pins, how, second=None):
 def judge_a(ctx, comp, par, versions, pins, reverse_order, case, second=None, n_reports=1):
     """second = (comp2 repo, versions2, pins2) when the parent pins two components"""
     ctx.evaluated()
-    order_in = [('par', (mg.PRepo2 if second else mg.PRepo)('par', par, 'origin')),
-                ('comp', mg.component_repo_for('comp', comp))]
+    git_dirs = []
+    if case.get("disk_refs"):
+        # the refs are read from .git directories by the production reader (packed refs and loose files,
+        # annotated tags in both); the commit objects still come from the mock
+        import tempfile
+        top = tempfile.mkdtemp(prefix="vf-c07-git-")
+        git_dirs.append(top)
+        try:
+            return _judge_a(ctx, comp, par, versions, pins, reverse_order, case, second, n_reports, top)
+        finally:
+            import shutil
+            shutil.rmtree(top, ignore_errors=True)
+    return _judge_a(ctx, comp, par, versions, pins, reverse_order, case, second, n_reports, None)
+
+
+def _judge_a(ctx, comp, par, versions, pins, reverse_order, case, second, n_reports, top):
+    def src(mock, nm):
+        if top is None:
+            return mock
+        d = case["disk_refs"]
+        disk, stats = mg.disk_refs_repo(mock, os.path.join(top, nm), d["seed"] + len(nm), d["loose"])
+        ctx.count("refs_in_loose_files", stats[1])
+        ctx.count("annotated_tags_in_loose_files", stats[3])
+        ctx.count("annotated_tags_in_packed_refs", stats[0])
+        return disk
+    if top is not None:
+        ctx.count("scenarios_with_refs_read_from_git_directories")
+    order_in = [('par', (mg.PRepo2 if second else mg.PRepo)('par', src(par, 'par'), 'origin')),
+                ('comp', type(mg.component_repo_for('comp', comp))('comp', src(comp, 'comp'), 'origin'))]
     if second:
-        order_in.insert(1, ('comp2', mg.component_repo_for('comp2', second[0])))
+        order_in.insert(1, ('comp2', type(mg.component_repo_for('comp2', second[0]))('comp2', src(second[0], 'comp2'),
+                                                                                    'origin')))
     if reverse_order:
         order_in.reverse()
     try:
@@ -501,6 +542,8 @@ def run_shard(ctx):
         if not versions:
             ctx.count("component_without_builds(skipped)")
             continue
+        if any("version.txt" in c.tree.files for c in comp.commits.values()):
+            ctx.count("components_with_an_unreadable_first_version_location")
         second = None
         versions2 = None
         if rng.random() < 0.35:
@@ -517,6 +560,8 @@ def run_shard(ctx):
                 "comp": mg.describe(comp), "par": mg.describe(par),
                 "versions": [[c, list(v)] for c, v in versions], "pins": {str(k): v for k, v in pins.items()},
                 "reverse": rev, "n_reports": n_reports}
+        if n_reports == 1 and rng.random() < 0.15:
+            case["disk_refs"] = {"seed": rng.getrandbits(32), "loose": rng.choice([0.0, 0.3, 0.6])}
         if second:
             case.update(comp2=mg.describe(comp2), versions2=[[c, list(v)] for c, v in versions2],
                         pins2={str(k): v for k, v in pins2.items()})
